@@ -16,20 +16,33 @@
 (*         size, c = input bytes left, d = whole bytes in the bit buffer   *)
 (*   fin   io.EOF without touching the source                              *)
 (*   reset                                                                 *)
+(* and of its output window (decomperss; the rules WindowMech models):     *)
+(*   const a = history size, b = bytes behind the window (lookAhead),      *)
+(*         c = output the vector loop keeps free, d = longest copy         *)
+(*   hdr   a = size of the staging area for a block header that arrives    *)
+(*         in pieces                                                       *)
+(*   win   a = write position when the decode call started (after the      *)
+(*         slide), b = write position when the loops stopped, c = literals *)
+(*         parked for behind the window, d = length of the parked part of  *)
+(*         a copy                                                          *)
 (***************************************************************************)
 EXTENDS Integers, Sequences, FiniteSets, TLC, Json
 
 VARIABLES l, drift,
           held,      \* the Reader holds a peeked input slice
           lastStop,  \* why the last decoding step stopped (-1: none yet)
-          ended      \* the end of the stream has been decoded
-mvars == <<held, lastStop, ended>>
+          ended,     \* the end of the stream has been decoded
+          wpos,      \* write position after the last decode call (-1: unknown)
+          k          \* the implementation's constants: [h, slack, slop, copy]
+mvars == <<held, lastStop, ended, wpos, k>>
+MaxHeaderBytes == 286   \* 17 + 19*3 + 316*7 bits
 
 Trace == ndJsonDeserialize("trace.ndjson")
 Chk(name, cond) == IF cond THEN {} ELSE {name}
 Note(fs) == IF fs = {} THEN drift ELSE Append(drift, [l |-> l, c |-> fs])
 
-TInit == l = 1 /\ drift = <<>> /\ held = FALSE /\ lastStop = -1 /\ ended = FALSE
+TInit == /\ l = 1 /\ drift = <<>> /\ held = FALSE /\ lastStop = -1 /\ ended = FALSE /\ wpos = -1
+         /\ k = [h |-> 32768, slack |-> 288, slop |-> 274, copy |-> 258]
 
 RMech(e) ==
   CASE e.m = "wait" ->
@@ -41,29 +54,45 @@ RMech(e) ==
     [] e.m = "peek" ->
          /\ drift' = Note(   Chk("peek_only_without_input", ~held)
                         \cup Chk("peek_includes_loaded_bytes", e.b >= e.a \/ e.c = 1))
-         /\ held' = TRUE /\ UNCHANGED <<lastStop, ended>>
+         /\ held' = TRUE /\ UNCHANGED <<lastStop, ended, wpos, k>>
     [] e.m = "dec" ->
          /\ drift' = Note(   Chk("decode_needs_input_slice", held)
                         \cup Chk("decode_counts", e.b >= 0 /\ e.c >= 0 /\ e.c <= 65536 + 288))
-         /\ lastStop' = e.a /\ ended' = (e.d = 1) /\ UNCHANGED held
+         /\ lastStop' = e.a /\ ended' = (e.d = 1) /\ UNCHANGED <<held, wpos, k>>
     [] e.m = "disc" ->
          \* what is given back is exactly what was taken over minus what is still unread
          \* (input left plus whole bytes waiting in the bit buffer)
          /\ drift' = Note(   Chk("discard_arithmetic", e.a = e.b - e.c - e.d)
                         \cup Chk("discard_within_peek", e.a <= e.b)
                         \cup Chk("discard_when_input_used_up_or_stream_over", e.c = 0 \/ ended \/ lastStop \in {1, 3}))
-         /\ held' = FALSE /\ UNCHANGED <<lastStop, ended>>
+         /\ held' = FALSE /\ UNCHANGED <<lastStop, ended, wpos, k>>
     [] e.m = "fin" ->
          /\ drift' = Note(Chk("fin_only_at_end_of_stream", ended /\ ~held))
          /\ UNCHANGED mvars
     [] e.m = "reset" ->
-         /\ held' = FALSE /\ lastStop' = -1 /\ ended' = FALSE /\ UNCHANGED drift
+         /\ held' = FALSE /\ lastStop' = -1 /\ ended' = FALSE /\ wpos' = 0 /\ UNCHANGED <<drift, k>>
+    \* what WindowMech needs of the constants: two literals and a longest copy fit behind the
+    \* window, and the vector loop, which tests its limit only before a lookup, cannot leave it
+    [] e.m = "const" ->
+         /\ drift' = Note(   Chk("slack_holds_two_literals_and_a_longest_copy", e.b >= e.d + 2)
+                        \cup Chk("vector_margin_covers_a_whole_table_entry", e.c >= e.d + 2)
+                        \cup Chk("longest_copy_is_258", e.d = 258))
+         /\ k' = [h |-> e.a, slack |-> e.b, slop |-> e.c, copy |-> e.d] /\ UNCHANGED <<held, lastStop, ended, wpos>>
+    [] e.m = "hdr" ->
+         /\ drift' = Note(Chk("header_staging_holds_the_longest_header", e.a >= MaxHeaderBytes))
+         /\ UNCHANGED mvars
+    [] e.m = "win" ->
+         /\ drift' = Note(   Chk("call_starts_where_the_last_ended_or_slid", wpos = -1 \/ e.a = (IF wpos >= 2 * k.h THEN k.h ELSE wpos))
+                        \cup Chk("loops_stay_inside_the_window", e.b <= 2 * k.h /\ e.b >= e.a)
+                        \cup Chk("parked_only_at_a_full_window", (e.c + e.d > 0) => e.b = 2 * k.h)
+                        \cup Chk("parked_fits_behind_the_window", e.c >= 0 /\ e.c <= 3 /\ e.d >= 0 /\ e.d <= k.copy /\ (e.d > 0 => e.c <= 2) /\ e.c + e.d <= k.slack))
+         /\ wpos' = e.b + e.c + e.d /\ UNCHANGED <<held, lastStop, ended, k>>
 
 TNext ==
   /\ l <= Len(Trace) /\ l' = l + 1
   /\ LET e == Trace[l] IN
      IF e.ev = "RMech" THEN RMech(e)
-     ELSE IF e.ev = "Begin" /\ e.ctor = "new" THEN held' = FALSE /\ lastStop' = -1 /\ ended' = FALSE /\ UNCHANGED drift
+     ELSE IF e.ev = "Begin" /\ e.ctor = "new" THEN held' = FALSE /\ lastStop' = -1 /\ ended' = FALSE /\ wpos' = -1 /\ UNCHANGED <<drift, k>>
      ELSE UNCHANGED <<mvars, drift>>
 
 TSpec == TInit /\ [][TNext]_<<l, drift, mvars>>
